@@ -554,6 +554,18 @@ def rule_noise_update(ctx, rid):
         elt = comp[2]
         okelt = elt[0] == 'sub' and elt[1] == var and elt[2][0] == 'tuple' and len(elt[2][1]) == 2 \
             and elt[2][1][0][0] == 'slice' and elt[2][1][1] == C(0)
+        if not okelt and elt[0] == 'sub' and elt[1] == var and elt[2][0] == 'tuple' and len(elt[2][1]) == 2 \
+                and elt[2][1][0][0] == 'slice' and elt[2][1][1] == C(-1):
+            # the last column is the first one when the noise sift is capped at one IMF at this dispatch
+            try:
+                formals = [f for f in P.func('emd.sift.sift').params]
+                k = formals.index('max_imfs')
+                argsc = it[3][1] if it[0] == 'meth' and len(it[3]) > 1 else None
+                tup = argsc[2] if argsc is not None and argsc[0] == 'comp' else None
+                if tup is not None and tup[0] in ('tuple', 'list') and len(tup[1]) > k and tup[1][k] == C(1):
+                    okelt = True
+            except (ValueError, IndexError, KeyError):
+                pass
         okit = it[0] == 'meth' and it[1] in ('starmap', 'map') and it[3] and it[3][0] in (('ref', 'emd.sift.sift'),
                                                                                           ('func', 'emd.sift.sift'))
         if not okelt:
